@@ -654,8 +654,54 @@ func (r *rwRT) ruleOptOrder() {
 		}
 		return nil
 	})
+	in.Fields["f.Filename"] = Sym{Name: "filename1", Uniq: true}
+	in.Fields["f2.Filename"] = Sym{Name: "filename2", Uniq: true}
 	res := in.Apply(base, visit, []AV{Sym{Name: "f", NN: true}})
 	r.account(in)
+	// a second, different file that uses seq, visited after one that was printed, is printed too
+	secondOK, secondSeen := true, false
+	secondEx := ""
+	for _, o := range res {
+		usesSeq, printed := false, false
+		for _, l := range o.St.Labels {
+			if l == "uses seq" {
+				usesSeq = true
+			}
+		}
+		for _, e := range o.St.Events[len(base.Events):] {
+			if e.Kind == "call" && isSymNamed(e.Callee, "printer") {
+				printed = true
+			}
+		}
+		if !usesSeq || !printed || o.Panicked {
+			continue
+		}
+		n0, nl := len(o.St.Events), len(o.St.Labels)
+		for _, o2 := range in.Apply(o.St, visit, []AV{Sym{Name: "f2", NN: true}}) {
+			uses2, printed2 := false, false
+			for _, l := range o2.St.Labels[nl:] {
+				if l == "uses seq" {
+					uses2 = true
+				}
+			}
+			for _, e := range o2.St.Events[n0:] {
+				if e.Kind == "call" && isSymNamed(e.Callee, "printer") {
+					printed2 = true
+				}
+			}
+			if uses2 && !o2.Panicked {
+				secondSeen = true
+				if !printed2 {
+					secondOK = false
+					secondEx = pathSummary(o2)
+				}
+			}
+		}
+		r.account(in)
+	}
+	if secondSeen {
+		c.check(secondOK, "OPT.ORDER", "second file using seq", pos, "is printed whatever was printed before it", "a file that uses seq is not written because of another file processed earlier (its plain declarations vanish from the generated package): "+secondEx)
+	}
 	for _, o := range res {
 		uses := false
 		for _, l := range o.St.Labels {
